@@ -515,3 +515,42 @@ func VerifC14Scalars() {
 		c14Last[time.Duration](time.Duration(x), time.Duration(y))
 	}
 }
+
+// H2b: the type of a tool call belongs to its index: fragments of index 0 and index 1 carry "", "function" or "web"
+// independently; each merged call has the type its own fragments carry (first non-empty), whatever order the index
+// groups are visited in; two different types within one index are an error, in every chunking alike.
+func VerifC14ToolCallTypes() {
+	vcfgMapOrderIn("concatToolCalls")
+	types := []string{"", "function", "web"}
+	want := map[int]string{}
+	conflict := false
+	var msgs []*Message
+	for i := 0; i < 2; i++ {
+		m := &Message{Role: Assistant}
+		for ix := 0; ix < 2; ix++ {
+			k := ix
+			t := types[vrange("type", 0, 2)]
+			m.ToolCalls = append(m.ToolCalls, ToolCall{Index: &k, Type: t, Function: FunctionCall{Arguments: c14Small[1]}})
+			if t != "" {
+				if want[ix] != "" && want[ix] != t {
+					conflict = true
+				}
+				if want[ix] == "" {
+					want[ix] = t
+				}
+			}
+		}
+		msgs = append(msgs, m)
+	}
+	all := c14Rechunk(msgs, "tool call types")
+	if conflict {
+		vassert(all == nil, "two different types within one tool-call index are an error")
+		return
+	}
+	vassert(all != nil && len(all.ToolCalls) == 2, "fragments with consistent types per index concatenate to one call per index")
+	if all != nil && len(all.ToolCalls) == 2 {
+		for _, tc := range all.ToolCalls {
+			vassert(tc.Index != nil && tc.Type == want[*tc.Index], "a merged tool call has the type its own fragments carry, not that of another index")
+		}
+	}
+}
